@@ -195,3 +195,29 @@ def exc_sig(clause, exc):
 def exc_detail(exc):
     s = f"{type(exc).__name__}: {exc}"
     return s[:300]
+
+
+_PARAM_NAMES = None
+
+
+def param_names():
+    """Names of the parameters of the library's own comparison callables and condition methods (read from the tree
+    under test): candidate KEYWORD names for items_contain, where every keyword names an expected item."""
+    global _PARAM_NAMES
+    if _PARAM_NAMES is None:
+        import inspect
+        names = set()
+        mods = [ns().callables] if hasattr(ns(), "callables") else []
+        try:
+            import valida.callables as vc
+            mods = [vc]
+        except Exception:
+            pass
+        for m in mods:
+            for _, fn in inspect.getmembers(m, inspect.isfunction):
+                try:
+                    names.update(inspect.signature(fn).parameters)
+                except (TypeError, ValueError):
+                    pass
+        _PARAM_NAMES = sorted(n for n in names if n not in ("self", "cls", "func", "callable"))
+    return _PARAM_NAMES
